@@ -2,6 +2,7 @@
 from __future__ import annotations
 
 import hashlib
+import os
 import json
 import random
 import tempfile
@@ -220,13 +221,65 @@ def work_recursive(args):
         if not poison(cfg):
             return None
         expect_fail = "a key whose type does not match the algorithm"
+    compare_model = True
     with tempfile.TemporaryDirectory(prefix="verif_c09_") as d:
+        if mode == "resign":
+            # second pass over an already signed tree: each node's action is its own (default: error), never an ancestor's
+            first, _ = signing.run_sign("recursive", b, d, configuration=cfg)
+            if "ok" not in first:
+                return None
+            b = first["ok"]
+
+            def reconfigure(c, root):
+                c = dict(c)
+                c.pop("already-signed-action", None)
+                r = rng.random()
+                if root:
+                    c["already-signed-action"] = rng.choice(["skip", "remove-old", "remove-old"])
+                elif r < 0.35:
+                    c["already-signed-action"] = rng.choice(["skip", "remove-old"])
+                elif r < 0.45:
+                    c["already-signed-action"] = "error"
+                if "dependencies" in c:
+                    c["dependencies"] = {n: reconfigure(x, False) for n, x in c["dependencies"].items()}
+                return c
+            cfg = reconfigure(cfg, True)
+
+            def refused(c):
+                # every configured node that is not omitted was signed by the first pass
+                if not c.get("omit-signing") and c.get("already-signed-action", "error") == "error":
+                    return True
+                return any(refused(x) for x in c.get("dependencies", {}).values())
+            if refused(cfg):
+                expect_fail = "an already signed node whose own action is 'error' (the default)"
+        elif mode == "parties":
+            # every node has its own copy of the KMS script (same file name, another directory) with its own keys next to it and no context
+            compare_model = False
+            cfg.pop("context", None)
+            counter = [0]
+
+            def party(c):
+                c = dict(c)
+                c.pop("context", None)
+                counter[0] += 1
+                pd = os.path.join(d, f"party{counter[0]}")
+                os.makedirs(pd)
+                import shutil
+                shutil.copy(str(common.REPO / "ncs" / "basic_kms.py"), os.path.join(pd, "basic_kms.py"))
+                if "key-name" in c:
+                    for ext in (".pem",):
+                        shutil.copy(os.path.join(signing.keys_dir(), c["key-name"] + ext), os.path.join(pd, c["key-name"] + ext))
+                c["kms-script"] = os.path.join(pd, "basic_kms.py")
+                if "dependencies" in c:
+                    c["dependencies"] = {n: party(x) for n, x in c["dependencies"].items()}
+                return c
+            cfg = party(cfg)
         res, recs = signing.run_sign("recursive", b, d, configuration=cfg)
-    model = drv.call({"op": "sign.recursive", "file": b.hex(), "cfg": cfg_to_model(cfg), "table": recs})
+    model = drv.call({"op": "sign.recursive", "file": b.hex(), "cfg": cfg_to_model(cfg), "table": recs}) if compare_model else None
     impl = {"ok": res["ok"].hex()} if "ok" in res else {"err": res["err"]}
     out = {"hash": hashlib.sha1(b + json.dumps(cfg, sort_keys=True).encode()).hexdigest(), "mode": mode, "problems": [], "mismatch": None,
            "nodes": json.dumps(cfg).count("key-id"), "impl": "ok" if "ok" in res else res["err"]}
-    if impl != model:
+    if compare_model and impl != model:
         out["mismatch"] = {"op": "sign.recursive", "impl": _short(impl), "model": _short(model), "cfg": cfg}
     if expect_fail:
         if "ok" in res:
@@ -312,7 +365,7 @@ def run(tier: str, seed: int) -> int:
                         i += 1
     nrec = 110 if tier == "quick" else 3000
     for k in range(nrec):
-        mode = ["valid", "valid", "valid", "valid", "absent", "not-envelope", "mismatch"][k % 7]
+        mode = ["valid", "valid", "resign", "valid", "absent", "not-envelope", "mismatch", "parties", "resign"][k % 9]
         jobs.append(("rec", (seed, k, mode)))
     outs = common.pmap(_dispatch, jobs, chunk=2)
     for job, o in zip(jobs, outs):
